@@ -51,7 +51,9 @@ class http_syncer(base.Syncer):
         try:
             resp = urllib.request.urlopen(req, context=context)
         except urllib.error.URLError as e:
-            if e.getcode() == 304:  # Not Modified
+            # only HTTPError carries a status code; a plain URLError
+            # (connection refused, unknown host, ...) does not
+            if getattr(e, "code", None) == 304:  # Not Modified
                 logger.debug("content is unchanged")
                 return True
             raise base.SyncError(f"failed fetching {self.uri!r}: {e.reason}") from e
